@@ -10,9 +10,13 @@ import (
 	"encoding/hex"
 	"errors"
 	"fmt"
+	"hash/fnv"
 	"io"
+	"net"
 	"net/http"
+	"os"
 	"sync"
+	"syscall"
 
 	"verif/sim/sched"
 )
@@ -61,6 +65,35 @@ type Fault struct {
 func (f *Fault) connErr() error {
 	if f.Err != nil {
 		return f.Err
+	}
+	return ErrConn
+}
+
+// connErrShape picks the shape of a connection error from what is sent (the same request fails the
+// same way wherever and whenever it is sent: scenarios compare runs with each other).
+func connErrShape(m *Message) int {
+	h := fnv.New32a()
+	h.Write([]byte(m.URL))
+	h.Write(m.Body)
+	return int(h.Sum32() % 5)
+}
+
+// realisticConnErr is what a net/http client reports when the peer goes away: which of the
+// shapes is a function of the request (no draw): the plain sentinel, an EOF, an
+// unexpected EOF, a reset or a broken pipe wrapped the way the net package wraps them.
+func realisticConnErr(seq int, before bool) error {
+	switch seq % 5 {
+	case 1:
+		return io.EOF
+	case 2:
+		return io.ErrUnexpectedEOF
+	case 3:
+		return &net.OpError{Op: "read", Net: "tcp", Err: os.NewSyscallError("read", syscall.ECONNRESET)}
+	case 4:
+		if before {
+			return &net.OpError{Op: "write", Net: "tcp", Err: os.NewSyscallError("write", syscall.EPIPE)}
+		}
+		return &net.OpError{Op: "read", Net: "tcp", Err: os.NewSyscallError("read", syscall.ECONNRESET)}
 	}
 	return ErrConn
 }
@@ -171,7 +204,11 @@ func (n *Net) deliver(m *Message) {
 	}
 	if f != nil && f.Kind == "ErrBefore" {
 		n.fire("transport.error-before-service")
-		n.queueReply(m, &reply{err: f.connErr(), readErrAt: -1})
+		e := f.connErr()
+		if f.Err == nil {
+			e = realisticConnErr(connErrShape(m), true)
+		}
+		n.queueReply(m, &reply{err: e, readErrAt: -1})
 		return
 	}
 	h := n.Handlers[m.URL]
@@ -190,7 +227,11 @@ func (n *Net) deliver(m *Message) {
 		switch f.Kind {
 		case "ErrAfter":
 			n.fire("transport.error-after-service")
-			r = &reply{err: f.connErr(), readErrAt: -1}
+			e := f.connErr()
+			if f.Err == nil {
+				e = realisticConnErr(connErrShape(m), false)
+			}
+			r = &reply{err: e, readErrAt: -1}
 		case "Status":
 			n.fire(fmt.Sprintf("transport.status-%d", f.Status))
 			r.status, r.body = f.Status, f.Body
